@@ -213,20 +213,174 @@ def place_of(loc, hit):
 class Resolver:
     """Re-resolution of printed paths on one loaded document (cached: it does not depend on the search options)."""
 
-    def __init__(self, data):
+    def __init__(self, data, sx=None):
         self.data = data
         self.loc = absdoc.Locator(data)
         self.cache = {}
+        self.sx = sx if has_side(sx) else None
+        self.ymk = ymk_ids(self.loc, sx) if self.sx else {}
 
     def resolve(self, text):
         """dict(out, ids=[place ids in document order], hits=[Hit], same=all hits are one object)."""
         if text not in self.cache:
             r = queryobs.run_query(self.data, self.loc, text, "must")
             hits = r["hits"]
-            ids = [place_of(self.loc, h) for h in hits]
+            ids = [self.ymk.get((id(h.parent), id(h.node))) or place_of(self.loc, h) for h in hits]
             same = all(h.node is hits[0].node for h in hits) if hits else True
             self.cache[text] = {"out": r["out"], "ids": ids, "hits": hits, "same": same, "virt": r["virt"], "msg": r.get("msg", "")}
         return self.cache[text]
+
+
+# --------------------------------------------------------------------------- documents with a side structure
+# (spec/YPathsSearch.tla: kanchor / kalias / merges / merged next to the YData node table; absdoc's table is unchanged)
+def no_side(doc):
+    return {"kanchor": [""] * len(doc), "kalias": [], "merges": [[] for _ in doc], "merged": []}
+
+
+def has_side(sx):
+    return bool(sx) and (any(sx["kanchor"]) or any(sx["merges"]) or bool(sx["merged"]))
+
+
+def concretise_side(doc, sx, style="block", plain=False, merge_first=True):
+    """Node table + side structure -> YAML text: `&k key:` / `*k :` for anchored / aliased keys, `<<: *m` for a merge
+    (merged-in pairs are not written: the loader produces them)."""
+    merged = set(sx["merged"])
+    kalias = set(sx["kalias"])
+
+    def key_text(n, j):
+        c = n["kids"][j]
+        a = sx["kanchor"][c - 1]
+        if a and c in kalias:
+            return "*%s " % a
+        txt = absdoc._key_text(n["keys"][j], plain)
+        return ("&%s %s" % (a, txt)) if a else txt
+
+    def pairs(i):
+        n = doc[i - 1]
+        own = [("k", j) for j in range(len(n["kids"])) if n["kids"][j] not in merged]
+        refs = [("m", t) for t in sx["merges"][i - 1]]
+        return refs + own if merge_first else own + refs
+
+    def mref(ts):
+        return "*%s" % doc[ts - 1]["anchor"]
+
+    def flow(i):
+        n = doc[i - 1]
+        pre = ("&%s " % n["anchor"]) if n["anchor"] and n["k"] != "s" else ""
+        if n["k"] == "map":
+            return pre + "{" + ", ".join(("<<: %s" % mref(x)) if w == "m" else "%s: %s" % (key_text(n, x), flow(n["kids"][x]))
+                                         for w, x in pairs(i)) + "}"
+        if n["k"] == "seq":
+            return pre + "[" + ", ".join(flow(c) for c in n["kids"]) + "]"
+        if n["k"] == "set":
+            return pre + "!!set {" + ", ".join("? " + flow(c) for c in n["kids"]) + "}"
+        return absdoc._scalar_text(n, plain)
+
+    def block(i, ind, lines, lead):
+        n = doc[i - 1]
+        pad = "  " * ind
+        pre = (" &%s" % n["anchor"]) if n["anchor"] and n["k"] != "s" else ""
+        ps = pairs(i) if n["k"] == "map" else None
+        if n["k"] == "s":
+            lines.append("%s%s %s" % (pad, lead, absdoc._scalar_text(n, plain)) if lead else pad + absdoc._scalar_text(n, plain))
+        elif (not ps) if n["k"] == "map" else (not n["kids"]):
+            empty = {"map": "{}", "seq": "[]", "set": "!!set {}"}[n["k"]]
+            lines.append(("%s%s%s %s" % (pad, lead, pre, empty)) if lead else pad + (pre.strip() + " " if pre else "") + empty)
+        else:
+            tag = " !!set" if n["k"] == "set" else ""
+            if lead:
+                lines.append("%s%s%s%s" % (pad, lead, pre, tag))
+                ind2 = ind + 1
+            else:
+                if pre or tag:
+                    lines.append(pad + (pre + tag).strip())
+                ind2 = ind
+            pad2 = "  " * ind2
+            if n["k"] == "map":
+                for w, x in ps:
+                    if w == "m":
+                        lines.append("%s<<: %s" % (pad2, mref(x)))
+                    else:
+                        block(n["kids"][x], ind2, lines, key_text(n, x) + ":")
+            elif n["k"] == "seq":
+                for c in n["kids"]:
+                    block(c, ind2, lines, "-")
+            else:
+                for c in n["kids"]:
+                    lines.append("%s? %s" % (pad2, absdoc._scalar_text(doc[c - 1], plain)))
+
+    if style == "flow":
+        return flow(1) + "\n"
+    lines = ["---"]
+    block(1, 0, lines, "")
+    return "\n".join(lines) + "\n"
+
+
+def shape_problems(data, doc, sx):
+    """Does the loaded object graph have the shape the model says?  The node table (merged-in pairs included, after
+    the own pairs), which keys carry which anchor, which keys are aliases (the very same key object as an earlier key),
+    what each hash merges (the very objects at those positions), which pairs are merged-in."""
+    out = []
+    real, pos = absdoc.abstract(data, with_positions=True)
+    if not absdoc.same_table(real, doc):
+        return ["node table differs"]
+    kanchor, kalias, merged = [""] * len(doc), [], []
+    merges = [[] for _ in doc]
+    seen_keys = {}
+    obj_at = {i: pos[i - 1][0] for i in range(1, len(doc) + 1)}
+    for i, n in enumerate(doc, 1):
+        if n["k"] != "map":
+            continue
+        m = obj_at[i]
+        own = [k for k, _ in m.non_merged_items()] if hasattr(m, "non_merged_items") else list(m.keys())
+        for j, (k, c) in enumerate(zip(m.keys(), n["kids"])):
+            a = absdoc.anchor_of(k)
+            kanchor[c - 1] = a
+            if a:
+                seen_keys.setdefault(id(k), []).append(c)
+            if not any(k is o for o in own):
+                merged.append(c)
+        for _, ref in (getattr(m, "merge", None) or []):
+            t = [x for x in range(1, i) if obj_at[x] is ref]
+            merges[i - 1].append(t[0] if t else 0)
+    for cs in seen_keys.values():       # one key object at several places: the first in document order defines it
+        kalias.extend(sorted(cs)[1:])
+    if kanchor != list(sx["kanchor"]):
+        out.append("key anchors %s, model %s" % (kanchor, sx["kanchor"]))
+    if sorted(kalias) != sorted(sx["kalias"]):
+        out.append("aliased keys %s, model %s" % (sorted(kalias), sx["kalias"]))
+    if merges != [list(x) for x in sx["merges"]]:
+        out.append("merges %s, model %s" % (merges, sx["merges"]))
+    if sorted(merged) != sorted(sx["merged"]):
+        out.append("merged-in pairs %s, model %s" % (sorted(merged), sx["merged"]))
+    return out
+
+
+def merge_unfilled(data):
+    """ruamel.yaml copies the pairs of a merged hash when the merging hash is constructed; a hash anchored inside a
+    nested list is filled only later, so the merging hash stays without those pairs (a property of the loader, seen
+    for [[&m {..}], {<<: *m}]).  Such a text does not load to the document the model describes: it is skipped."""
+    def walk(x):
+        if isinstance(x, dict):
+            for _, ref in (getattr(x, "merge", None) or []):
+                if any(k not in x for k in ref):
+                    return True
+            return any(walk(v) for v in x.values())
+        if isinstance(x, list):
+            return any(walk(v) for v in x)
+        return False
+    return walk(data)
+
+
+def ymk_ids(loc, sx):
+    """(id of the merging hash object, id of the merged hash object) -> the model's position id of that `<<` reference."""
+    out = {}
+    k = len(loc.doc)
+    for u, refs in enumerate(sx["merges"], 1):
+        for t in refs:
+            k += 1
+            out[(id(loc.pos[u - 1][0]), id(loc.pos[t - 1][0]))] = k
+    return out
 
 
 # --------------------------------------------------------------------------- the tool in-process
